@@ -38,7 +38,7 @@ import dist_C09 as D
 import explore_C09 as X
 import trace_C09 as T
 
-VARIANTS = ["plain", "soft", "meta", "blank", "edgelike", "auto", "reserved", "odd", "leadquote"]
+VARIANTS = ["plain", "soft", "meta", "blank", "edgelike", "auto", "reserved", "odd", "leadquote", "tiny", "huge"]
 REQUIRED_ACTS = {
     "Make", "NewickRT", "NewickNamesRT", "NewickDefaultRT", "DndRT", "JsonRT", "RichDictRT", "Copy", "DeepCopy",
     "CopyModule", "Sorted", "SortedRev", "RootedAt", "RootedWithTip", "Unrooted", "SubTree", "RootAtMidpoint",
@@ -212,7 +212,9 @@ def check(run: Run):
     )
     run.cov["exhaustive"] = all(s.get("skipped_by_budget", 0) == 0 for s in ops)
     run.assumptions += [
-        "branch lengths are dyadic (multiples of 1/2 in the exhaustive model, of 1/8 in recorded executions; exact in binary floating point); other positive lengths are not covered",
+        "branch lengths are dyadic (multiples of 1/2 in the exhaustive model, of 1/8 in recorded executions; exact in binary floating point); "
+        "two further length classes (unit 1.23456789e-9 and 50.000000000123, not dyadic) run on the newick/json/dnd round trips of freshly made trees, "
+        "compared with relative tolerance 1e-9 (float summation noise is ~1e-16)",
         "names do not both start and end with a single quote (get_newick treats those as pre-escaped)",
         "blank-containing names are read back with make_tree(underscore_unmunge=True); the default reader documents that it keeps underscores",
         "child order is not part of the abstract tree; only sorted() is checked for the order of tips",
